@@ -1331,6 +1331,20 @@ def rule_d3(a, prov, writes):
             itx = a.expand(pf, loop.iter)
             good = isinstance(itx, ast.Call) and isinstance(itx.func, ast.Attribute) and itx.func.attr == 'splitlines' \
                 and not itx.args and not itx.keywords
+            if not good and isinstance(itx, ast.Call):
+                # a line splitter of the repository: its elements are pieces of `<text with every CR turned into LF>.split('\n')`
+                for g in a.ctx.res.callee_funcs(pf, itx, allow_name=False, count=False):
+                    rets = [r for r in walk_no_nested(g.node) if isinstance(r, ast.Return) and r.value is not None]
+                    okg = bool(rets)
+                    for r in rets:
+                        e = U.expand_locals(g.node, r.value)
+                        sp = [c2 for c2 in ast.walk(e) if isinstance(c2, ast.Call) and isinstance(c2.func, ast.Attribute) and c2.func.attr == 'split'
+                              and len(c2.args) == 1 and isinstance(c2.args[0], ast.Constant) and c2.args[0].value == '\n']
+                        cr = [c2 for c2 in ast.walk(e) if isinstance(c2, ast.Call) and isinstance(c2.func, ast.Attribute) and c2.func.attr == 'replace'
+                              and len(c2.args) == 2 and isinstance(c2.args[0], ast.Constant) and c2.args[0].value == '\r'
+                              and isinstance(c2.args[1], ast.Constant) and c2.args[1].value == '\n']
+                        okg = okg and bool(sp) and bool(cr)
+                    good = good or okg
         if good:
             line = loop.target.id
             inner = {k: v for k, v in U.local_defs(pf.node).items()}
@@ -1349,8 +1363,8 @@ def rule_d3(a, prov, writes):
                             return False
                 return True
             good = all(only_line(x) for x in c.args)
-        ck.expect(good, R, pf.qual, norm_text(c), 'a parsed field value is not a piece of one line of splitlines(): it '
-                  'can contain CR/LF', pf.loc(c))
+        ck.expect(good, R, pf.qual, norm_text(c), 'a parsed field value is not a piece of one line (splitlines() / a splitter that turns every CR and LF into a '
+                  'line end): it can contain CR/LF', pf.loc(c))
 
 
 def _check_readd(a, w):
